@@ -76,6 +76,10 @@ def read_certificate_ok(obs):
     the solve that just finished (so the continuation cannot depend on which
     optimal class an intermediate solve returned)."""
     solves = obs["solves"] or []
+    if any(s.get("gap") for s in solves):
+        # the back end may stop within a gap of the optimum: the objective
+        # value itself then differs between admissible answers
+        return False
     for k in range(1, len(solves)):
         prev = solves[k - 1]
         reads = solves[k].get("reads_before") or []
